@@ -102,12 +102,14 @@ type progCtx struct {
 	succ      map[*ssa.Function][]lin
 	succBusy  map[*ssa.Function]bool
 	nonneg    map[*ssa.Function]map[int]int // 0 unknown, 1 yes, 2 no, 3 busy
+	dynMethods map[string]bool             // method names invoked through some interface
+	assumedNonNeg map[string][]int         // reviewed assumptions: function -> indices of parameters that are never negative
 }
 
 var pc = &progCtx{
 	ans: map[*ssa.Function]*fnAn{}, callers: map[*ssa.Function][]ssa.CallInstruction{},
 	addrTaken: map[*ssa.Function]bool{}, succ: map[*ssa.Function][]lin{}, succBusy: map[*ssa.Function]bool{},
-	nonneg: map[*ssa.Function]map[int]int{},
+	nonneg: map[*ssa.Function]map[int]int{}, dynMethods: map[string]bool{},
 }
 
 func getAn(fn *ssa.Function) *fnAn {
@@ -118,6 +120,12 @@ func getAn(fn *ssa.Function) *fnAn {
 	pc.ans[fn] = a
 	if fn.Blocks != nil {
 		a.buildLoads()
+		a.pre = inferParamPre(fn)
+		// analysing the callers may have consulted this function before its preconditions were
+		// known: drop what was cached meanwhile
+		a.facts = map[*ssa.BasicBlock][]cons{}
+		delete(retCache, fn)
+		delete(pc.succ, fn)
 		a.computeInvariants()
 	}
 	return a
@@ -327,6 +335,7 @@ type fnAn struct {
 	loadRep map[*ssa.UnOp]ssa.Value // canonical value for a load
 	reach   map[*ssa.BasicBlock]map[*ssa.BasicBlock]bool
 	inv     []cons
+	pre     []cons // parameter facts that hold at every call site of the module
 }
 
 func isIntLike(t types.Type) (bits int, signed bool, ok bool) {
@@ -714,6 +723,13 @@ func (a *fnAn) capOf(v ssa.Value, depth int) lin {
 }
 
 func (a *fnAn) condFacts(c ssa.Value, truth bool) []cons {
+	if call, idx := callOfResult(c); call != nil && truth {
+		if callee := call.Call.StaticCallee(); callee != nil && callee.Blocks != nil && callee.Pkg != nil {
+			if sum := retSummaryOf(callee); sum != nil && sum.statusIx == idx && !sum.hasErr {
+				return a.callRetFacts(call, true)
+			}
+		}
+	}
 	switch x := c.(type) {
 	case *ssa.UnOp:
 		if x.Op == token.NOT {
@@ -737,6 +753,7 @@ func (a *fnAn) condFacts(c ssa.Value, truth bool) []cons {
 								out = append(out, ge(inst))
 							}
 						}
+						out = append(out, a.callRetFacts(call, true)...)
 						return out
 					}
 				}
@@ -789,7 +806,11 @@ func (a *fnAn) condFacts(c ssa.Value, truth bool) []cons {
 func (a *fnAn) atomFacts(at atom) []cons {
 	switch at.k {
 	case akLen:
-		return []cons{ge(single(at))}
+		out := []cons{ge(single(at))}
+		if call, _ := callOfResult(at.v); call != nil {
+			out = append(out, a.callRetFacts(call, false)...)
+		}
+		return out
 	case akCap:
 		ln := a.lenOf(at.v, 1)
 		if !ln.ok {
@@ -805,6 +826,7 @@ func (a *fnAn) atomFacts(at atom) []cons {
 				out = append(out, ge(konst(int64(1)<<uint(bits)-1).add(single(at), -1)))
 			}
 		}
+		out = append(out, constTableFacts(at)...)
 		if b, ok := at.v.(*ssa.BinOp); ok {
 			switch b.Op {
 			case token.AND:
@@ -834,6 +856,10 @@ func (a *fnAn) atomFacts(at atom) []cons {
 					out = append(out, ge(single(at)))
 				}
 			}
+		}
+		out = append(out, a.stdContractFacts(at)...)
+		if call, _ := callOfResult(at.v); call != nil {
+			out = append(out, a.callRetFacts(call, false)...)
 		}
 		if call, ok := at.v.(*ssa.Call); ok {
 			if bi, ok := call.Call.Value.(*ssa.Builtin); ok && exactArith(call.Type()) {
@@ -872,6 +898,8 @@ func (a *fnAn) blockFacts(b *ssa.BasicBlock) []cons {
 	var out []cons
 	if idom := b.Idom(); idom != nil {
 		out = append(out, a.blockFacts(idom)...)
+	} else {
+		out = append(out, a.pre...)
 	}
 	if len(b.Preds) == 1 {
 		p := b.Preds[0]
@@ -1058,8 +1086,8 @@ func (a *fnAn) prove(facts []cons, goal lin, depth int) bool {
 		if phi, ok := at.v.(*ssa.Phi); ok {
 			acyc := true
 			for _, p := range phi.Block().Preds {
-				if a.reaches(phi.Block(), p) {
-					acyc = false
+				if phi.Block().Dominates(p) {
+					acyc = false // loop-header phi: handled by the invariants, not by case split
 				}
 			}
 			if acyc {
@@ -1070,20 +1098,47 @@ func (a *fnAn) prove(facts []cons, goal lin, depth int) bool {
 	sort.Slice(cands, func(i, j int) bool { return cands[i].v.Name() < cands[j].v.Name() })
 	for _, at := range cands {
 		phi := at.v.(*ssa.Phi)
+		// all phis of the same block take their values from the same edge: substitute them together
+		var group []atom
+		seenAt := map[atom]bool{}
+		collect := func(l lin) {
+			for x := range l.c {
+				if p2, ok := x.v.(*ssa.Phi); ok && p2.Block() == phi.Block() && !seenAt[x] {
+					seenAt[x] = true
+					group = append(group, x)
+				}
+			}
+		}
+		collect(goal)
+		for _, f := range facts {
+			collect(f.l)
+		}
 		all := true
 		for i, p := range phi.Block().Preds {
-			by := a.phiEdge(at, phi, i)
-			if !by.ok {
+			nf := facts
+			g := goal
+			okEdge := true
+			for _, x := range group {
+				by := a.phiEdge(x, x.v.(*ssa.Phi), i)
+				if !by.ok {
+					if x == at {
+						okEdge = false
+					}
+					continue
+				}
+				nf = substAll(nf, x, by)
+				g = g.subst(x, by)
+			}
+			if !okEdge {
 				all = false
 				break
 			}
-			nf := substAll(facts, at, by)
-			nf = append(nf, a.blockFacts(p)...)
+			nf = append(append([]cons{}, nf...), a.blockFacts(p)...)
 			// also the edge condition itself if pred ends in If
 			if iff, ok := p.Instrs[len(p.Instrs)-1].(*ssa.If); ok && p.Succs[0] != p.Succs[1] {
 				nf = append(nf, a.condFacts(iff.Cond, p.Succs[0] == phi.Block())...)
 			}
-			if !a.prove(nf, goal.subst(at, by), depth+1) {
+			if !a.prove(nf, g, depth+1) {
 				all = false
 				break
 			}
@@ -1106,7 +1161,7 @@ func (a *fnAn) computeInvariants() {
 	for _, b := range a.fn.Blocks {
 		loop := false
 		for _, p := range b.Preds {
-			if a.reaches(b, p) {
+			if b.Dominates(p) {
 				loop = true
 			}
 		}
@@ -1171,7 +1226,7 @@ func (a *fnAn) computeInvariants() {
 		for _, at := range h.phis {
 			phi := h.defs[at]
 			for i, p := range h.b.Preds {
-				if a.reaches(h.b, p) {
+				if h.b.Dominates(p) {
 					continue
 				}
 				e := a.phiEdge(at, phi, i)
@@ -1194,6 +1249,30 @@ func (a *fnAn) computeInvariants() {
 				}
 			}
 		}
+		// rotated loops (`for i := range n`, do-while shapes): the test sits on the back edge and is
+		// expressed over the incremented value; shifted back by the step it is a candidate for the phi
+		for _, at := range h.phis {
+			phi := h.defs[at]
+			for i, p := range h.b.Preds {
+				if !h.b.Dominates(p) {
+					continue
+				}
+				e := a.phiEdge(at, phi, i)
+				if !e.ok || len(e.c) != 1 || e.c[at] != 1 {
+					continue
+				}
+				iff, ok := p.Instrs[len(p.Instrs)-1].(*ssa.If)
+				if !ok || p.Succs[0] == p.Succs[1] {
+					continue
+				}
+				shift := single(at).add(konst(e.k), -1) // phi - step
+				for _, c := range a.condFacts(iff.Cond, p.Succs[0] == h.b) {
+					if !c.neq {
+						addCand(c.l.subst(at, shift))
+					}
+				}
+			}
+		}
 		// Houdini
 		for changed := true; changed; {
 			changed = false
@@ -1204,7 +1283,7 @@ func (a *fnAn) computeInvariants() {
 					// substitute all header phis by their edge values
 					g := cand
 					var hyp []cons
-					back := a.reaches(h.b, p)
+					back := h.b.Dominates(p)
 					okEdge := true
 					for _, at := range h.phis {
 						e := a.phiEdge(at, h.defs[at], i)
@@ -1307,6 +1386,8 @@ func lift(fn *ssa.Function, facts []cons, goal lin, depth int) bool {
 
 type bSite struct {
 	ins  ssa.Instruction
+	f    *ssa.Function
+	rel  bool // some available fact shares an atom with an unproven goal (a related check exists)
 	goal string
 	pos  token.Position
 	fn   string
@@ -1324,11 +1405,19 @@ func boundsAnalyse(fn *ssa.Function, fset *token.FileSet) []bSite {
 		facts := append([]cons{}, a.blockFacts(ins.Block())...)
 		facts = append(facts, a.inv...)
 		ok := true
+		rel := false
 		var unp []string
 		for gi, g := range goals {
 			if !a.prove(facts, g, 0) && !lift(fn, facts, g, 0) {
 				ok = false
 				unp = append(unp, fmt.Sprint(gi))
+				for _, f := range facts {
+					for at := range f.l.c {
+						if _, has := g.c[at]; has {
+							rel = true
+						}
+					}
+				}
 			}
 		}
 		p := ins.Pos()
@@ -1344,7 +1433,7 @@ func boundsAnalyse(fn *ssa.Function, fset *token.FileSet) []bSite {
 				}
 			}
 		}
-		sites = append(sites, bSite{ins: ins, goal: strings.Join(unp, ","), pos: fset.Position(p), fn: fn.String(), what: what, ok: ok})
+		sites = append(sites, bSite{ins: ins, f: fn, rel: rel, goal: strings.Join(unp, ","), pos: fset.Position(p), fn: fn.String(), what: what, ok: ok})
 	}
 	one := konst(1)
 	for _, b := range fn.Blocks {
@@ -1395,4 +1484,228 @@ func boundsAnalyse(fn *ssa.Function, fset *token.FileSet) []bSite {
 		}
 	}
 	return sites
+}
+
+// stdContractFacts: documented contracts of standard-library searches and readers, assumed
+// (trusted base): an index search over s returns -1 <= i < len(s); Read/ReadFrom into p returns
+// 0 <= n <= len(p).
+func (a *fnAn) stdContractFacts(at atom) []cons {
+	var call *ssa.Call
+	idx := 0
+	switch x := at.v.(type) {
+	case *ssa.Call:
+		call = x
+	case *ssa.Extract:
+		c, ok := x.Tuple.(*ssa.Call)
+		if !ok {
+			return nil
+		}
+		call, idx = c, x.Index
+	default:
+		return nil
+	}
+	if idx != 0 {
+		return nil
+	}
+	cc := &call.Call
+	var buf ssa.Value
+	search := false
+	if cc.IsInvoke() {
+		switch cc.Method.Name() {
+		case "Read", "ReadFrom":
+			if len(cc.Args) >= 1 && isByteSlice(cc.Args[0].Type()) {
+				buf = cc.Args[0]
+			}
+		case "ReadFromContext":
+			if len(cc.Args) >= 2 && isByteSlice(cc.Args[1].Type()) {
+				buf = cc.Args[1]
+			}
+		}
+	} else if f := cc.StaticCallee(); f != nil {
+		pkg := ""
+		if f.Pkg != nil {
+			pkg = f.Pkg.Pkg.Path()
+		} else if f.Object() != nil && f.Object().Pkg() != nil {
+			pkg = f.Object().Pkg().Path()
+		}
+		name := f.Name()
+		if i := strings.Index(name, "["); i >= 0 {
+			name = name[:i]
+		}
+		switch pkg {
+		case "slices", "bytes", "strings":
+			switch name {
+			case "Index", "IndexFunc", "IndexByte", "IndexRune", "IndexAny", "LastIndex", "LastIndexByte", "LastIndexFunc":
+				if len(cc.Args) >= 1 {
+					buf, search = cc.Args[0], true
+				}
+			}
+		case "net", "io", "bufio", "os":
+			if (name == "Read" || name == "ReadFrom" || name == "ReadFull") && f.Signature.Recv() != nil && len(cc.Args) >= 2 && isByteSlice(cc.Args[1].Type()) {
+				buf = cc.Args[1]
+			}
+		}
+	}
+	if buf == nil {
+		return nil
+	}
+	ln := a.lenOf(buf, 1)
+	if !ln.ok {
+		return nil
+	}
+	if search {
+		// -1 <= i <= len-1
+		return []cons{ge(single(at).add(konst(1), 1)), ge(ln.add(single(at), -1).add(konst(1), -1))}
+	}
+	return []cons{ge(single(at)), ge(ln.add(single(at), -1))}
+}
+
+var preBusy = map[*ssa.Function]bool{}
+
+// inferParamPre: simple parameter preconditions (a signed integer parameter is never negative)
+// that are proven at every call site inside the module. The bounds rules are about what the
+// network can make the module do, so the module's own call sites are the closed world here; a
+// function whose address is taken, or that may be invoked through an interface, gets none.
+func inferParamPre(fn *ssa.Function) []cons {
+	var assumed []cons
+	for _, idx := range pc.assumedNonNeg[short(fn)] {
+		if idx >= 0 && idx < len(fn.Params) {
+			assumed = append(assumed, ge(single(atom{akVal, fn.Params[idx]})))
+		}
+	}
+	return append(assumed, inferParamPre0(fn)...)
+}
+
+func inferParamPre0(fn *ssa.Function) []cons {
+	if preBusy[fn] || pc.addrTaken[fn] || fn.Parent() != nil {
+		return nil
+	}
+	calls := pc.callers[fn]
+	if len(calls) == 0 {
+		return nil
+	}
+	if fn.Signature.Recv() != nil && pc.dynMethods[fn.Name()] {
+		return nil
+	}
+	preBusy[fn] = true
+	defer func() { preBusy[fn] = false }()
+	var out []cons
+	for i, p := range fn.Params {
+		_, signed, ok := isIntLike(p.Type())
+		if !ok || !signed {
+			continue
+		}
+		good := true
+		for _, c := range calls {
+			if _, isCall := c.(*ssa.Call); !isCall {
+				good = false
+				break
+			}
+			caller := c.Parent()
+			if preBusy[caller] || i >= len(c.Common().Args) {
+				good = false
+				break
+			}
+			ca := getAn(caller)
+			g := ca.linOf(c.Common().Args[i], 0)
+			cf := append(append([]cons{}, ca.blockFacts(c.Block())...), ca.inv...)
+			if !g.ok || !ca.prove(cf, g, 1) {
+				good = false
+				break
+			}
+		}
+		if good {
+			out = append(out, ge(single(atom{akVal, p})))
+		}
+	}
+	return out
+}
+
+// constTableFacts: an element loaded from a local array that is only ever filled with integer
+// constants (a composite literal such as []int{1, 1, 2, 1}) lies between the smallest and the
+// largest of them.
+func constTableFacts(at atom) []cons {
+	u, ok := at.v.(*ssa.UnOp)
+	if !ok || u.Op != token.MUL {
+		return nil
+	}
+	ia, ok := u.X.(*ssa.IndexAddr)
+	if !ok {
+		return nil
+	}
+	base := ia.X
+	if sl, ok := base.(*ssa.Slice); ok && sl.Low == nil && sl.High == nil {
+		base = sl.X
+	}
+	al, ok := base.(*ssa.Alloc)
+	if !ok {
+		return nil
+	}
+	if _, isArr := al.Type().Underlying().(*types.Pointer).Elem().Underlying().(*types.Array); !isArr {
+		return nil
+	}
+	lo, hi := int64(0), int64(0)
+	n := 0
+	for _, ref := range *al.Referrers() {
+		switch x := ref.(type) {
+		case *ssa.IndexAddr:
+			for _, r2 := range *x.Referrers() {
+				switch y := r2.(type) {
+				case *ssa.Store:
+					if y.Addr != ssa.Value(x) {
+						return nil
+					}
+					k, isC := y.Val.(*ssa.Const)
+					if !isC || k.Value == nil || k.Value.Kind() != constant.Int {
+						return nil
+					}
+					v, exact := constant.Int64Val(k.Value)
+					if !exact {
+						return nil
+					}
+					if n == 0 || v < lo {
+						lo = v
+					}
+					if n == 0 || v > hi {
+						hi = v
+					}
+					n++
+				case *ssa.UnOp, *ssa.DebugRef:
+				default:
+					return nil
+				}
+			}
+		case *ssa.Slice:
+			// the full-slice view used for ranging: its element addresses are inspected above only if
+			// they index the array directly; element addresses through the slice must be loads
+			for _, r2 := range *x.Referrers() {
+				switch y := r2.(type) {
+				case *ssa.IndexAddr:
+					for _, r3 := range *y.Referrers() {
+						if _, isLoad := r3.(*ssa.UnOp); !isLoad {
+							if _, isDbg := r3.(*ssa.DebugRef); !isDbg {
+								return nil
+							}
+						}
+					}
+				case *ssa.Call:
+					if bi, ok := y.Call.Value.(*ssa.Builtin); !ok || bi.Name() != "len" {
+						return nil
+					}
+				case *ssa.DebugRef, *ssa.Range:
+				default:
+					return nil
+				}
+			}
+		case *ssa.DebugRef:
+		default:
+			return nil
+		}
+	}
+	at2 := at
+	arr := al.Type().Underlying().(*types.Pointer).Elem().Underlying().(*types.Array)
+	if n == 0 || int64(n) != arr.Len() {
+		return nil // not every element written with a constant (zero elements would widen the range)
+	}
+	return []cons{ge(single(at2).add(konst(lo), -1)), ge(konst(hi).add(single(at2), -1))}
 }
